@@ -7,6 +7,9 @@ package main
 // published metadata.
 
 import (
+	cryptorand "crypto/rand"
+	"crypto/x509/pkix"
+	"math/big"
 	"github.com/crewjam/saml/samlidp"
 	"bytes"
 	"compress/flate"
@@ -347,6 +350,26 @@ func usableCert(s string) bool {
 	return ok
 }
 
+// usageCerts: certificates of the SP key that carry an X.509 key-usage extension (signature only; key encipherment; both): the
+// metadata's `use` says what a key is for — a descriptor that advertises an encryption key is an encryption key
+var usageCerts map[string]string
+
+func (c *Ctx) usageCert(label string, ku x509.KeyUsage) string {
+	if usageCerts == nil {
+		usageCerts = map[string]string{}
+	}
+	if v, ok := usageCerts[label]; ok {
+		return v
+	}
+	k := c.key("sp")
+	tmpl := &x509.Certificate{SerialNumber: big.NewInt(int64(1000 + len(usageCerts))), Subject: pkix.Name{CommonName: "sp-" + label},
+		NotBefore: time.Date(2000, 1, 1, 0, 0, 0, 0, time.UTC), NotAfter: time.Date(2100, 1, 1, 0, 0, 0, 0, time.UTC), KeyUsage: ku}
+	der, err := x509.CreateCertificate(cryptorand.Reader, tmpl, tmpl, k.RSA().Public(), k.Key)
+	must(err)
+	usageCerts[label] = base64.StdEncoding.EncodeToString(der)
+	return usageCerts[label]
+}
+
 func (c *Ctx) certChoices() []certChoice {
 	sp := base64.StdEncoding.EncodeToString(c.key("sp").Cert.Raw)
 	sp2 := base64.StdEncoding.EncodeToString(c.key("sp2").Cert.Raw)
@@ -364,6 +387,9 @@ func (c *Ctx) certChoices() []certChoice {
 		{sp, true, "sp"}, {sp2, true, "sp2"}, {wrapped, true, "sp-wrapped"}, {ec, false, "ec"}, {"", false, "empty"},
 		{"   \n ", false, "blank"}, {"!!!not-base64!!!", false, "bad-base64"}, {base64.StdEncoding.EncodeToString([]byte("garbage der")), false, "bad-der"},
 		{sp[:len(sp)-8], false, "truncated"},
+		{c.usageCert("sig-only", x509.KeyUsageDigitalSignature), true, "sp-usage-signature-only"},
+		{c.usageCert("enc", x509.KeyUsageKeyEncipherment), true, "sp-usage-encipherment"},
+		{c.usageCert("cert-sign", x509.KeyUsageCertSign|x509.KeyUsageCRLSign), true, "sp-usage-cert-sign"},
 	}
 	for i := range l {
 		l[i].usable = usableCert(l[i].data)
